@@ -6,6 +6,7 @@ PROP = dict(
     level_text='Seeded exploration: valid generated (stylesheet, document, resources) tuples are pushed through every byte-taking entry point (transform overloads in 8 source x 4 stylesheet x 5 target forms, compileStylesheet, parseSource native/Xerces, parameter expressions, XPathEvaluator, both C APIs) while one fault per op hits the bytes in transit, the sink, the resolver or the clock. Oracles: call returns; non-zero status has a message; only documented exceptions escape; no ASan/UBSan report; benign perturbations change nothing; the same transformer then performs a known-good transformation with the reference output; memory-manager balance at destruction.',
     level_note='Scoped (DESIGN.md section 2): inputs are those reachable by fault operators from valid seeds plus fixed numeric/nesting extremes, not all byte strings. Xerces-C/ICU uninstrumented. Nesting capped at 200 so stack exhaustion inside Xerces is not provoked.',
     design_ref='DESIGN.md section 7 (C03), 3.2, 3.3, 5',
+    run_timeout=150,
     runs=dict(quick=4000, thorough=100000),
     nontrivial_counter=None,
     rule='One evaluation = one run: a long-lived transformer executes 1-6 seeded ops (each with at most one destructive fault and always-on benign perturbations) each followed by a known-good transformation. distinct_nontrivial = number of distinct trace hashes (hash over per-op status/exception/output-hash/follow-up outcome).',
